@@ -45,6 +45,15 @@ def c01 (codec : Codec) (toks : List String) : Option (Codec × String) :=
       match parseHeader a with
       | some h => pure (codec, s!"hdr={h.headerSize} size={h.archiveSize} ver={h.version} shift={h.shift} hash={h.hashPos}/{h.hashCount} block={h.blockPos}/{h.blockCount}")
       | none => pure (codec, "err header")
+  | ["mpqblocks", arch] => do
+      -- the decrypted block table of a classic archive: pos,csize,fsize,flags per entry
+      let a ← rleDecode arch
+      match parseHeader a with
+      | none => pure (codec, "err header")
+      | some h =>
+        match readTable a h.blockPos h.blockCount tableKeyBlock with
+        | some bt => pure (codec, ";".intercalate (bt.map fun r => ",".intercalate (r.map toString)))
+        | none => pure (codec, "err table")
   | ["c01het", hashes] => do
       -- the builder's extended hash table for files with these 64-bit name hashes: slot bytes and packed index array
       let hs ← (if hashes == "-" then some [] else (hashes.splitOn ",").mapM String.toNat?)
